@@ -692,6 +692,11 @@ pub fn run(args: &Args) -> i32 {
         done.store(true, Ordering::Relaxed);
     });
 
+    // ---------- the configuration option product through the real binary: a panic is an exit status that is
+    // neither 0 nor 1, or "panicked at" on stderr
+    let cli_cfg = cli_configurations(args, &rep);
+    family_counts.insert("cli-configurations".into(), cli_cfg);
+
     let outcomes = ctx.outcomes.lock().unwrap().clone();
     // vacuity guard: the corpus must reach generation
     for need in ["Op:generated", "Schema:schema-ok/generated", "Loader:loader:emitted", "Config:config:parsed"] {
@@ -729,6 +734,94 @@ pub fn run(args: &Args) -> i32 {
             "a case running longer than 10 s counts as non-termination".into(),
         ],
     )
+}
+
+/// Every combination of the generate options that decide which outputs exist and how they refer to each
+/// other, x plugins x command lines, on a small valid project.
+fn cli_configurations(args: &Args, rep: &Reporter) -> J {
+    use crate::cli;
+    let schema_outs: [Option<&str>; 3] = [None, Some("./gen/schema.d.ts"), Some("./gen/schema.ts")];
+    let commands: [&[&str]; 5] = [&["check"], &["generate"], &["check", "generate"], &["generate", "check"], &[]];
+    let mut cases: Vec<(String, Vec<String>, String)> = vec![];
+    for so in schema_outs {
+        for spec in [None, Some("@/schema")] {
+            for resolvers in [false, true] {
+                for server in [false, true] {
+                    for runtime in [false, true] {
+                        for mode in ["with-loader-ts-5.0", "standalone-ts-4.0"] {
+                            for plugin in [false, true] {
+                                for docs in [true, false] {
+                                    for arg_out in [false, true] {
+                                        for cmd in commands {
+                                            if !args.quick() || (cmd.len() == 1 && cmd[0] == "generate") || (!runtime && !plugin && docs && !arg_out && mode == "with-loader-ts-5.0") {
+                                                let mut y = String::from("schema: ./schema/*.graphql\n");
+                                                if docs {
+                                                    y.push_str("documents: ./src/*.graphql\n");
+                                                }
+                                                y.push_str("extensions:\n  nitrogql:\n");
+                                                if plugin {
+                                                    y.push_str("    plugins: [\"nitrogql:model-plugin\"]\n");
+                                                }
+                                                y.push_str(&format!("    generate:\n      mode: {mode}\n"));
+                                                if let Some(o) = so {
+                                                    y.push_str(&format!("      schemaOutput: {o}\n"));
+                                                }
+                                                if let Some(sp) = spec {
+                                                    y.push_str(&format!("      schemaModuleSpecifier: \"{sp}\"\n"));
+                                                }
+                                                if resolvers {
+                                                    y.push_str("      resolversOutput: ./gen/resolvers.d.ts\n");
+                                                }
+                                                if server {
+                                                    y.push_str("      serverGraphqlOutput: ./gen/graphql.ts\n");
+                                                }
+                                                if runtime {
+                                                    y.push_str("      emitSchemaRuntime: true\n");
+                                                }
+                                                let mut a: Vec<String> = vec!["--config-file".into(), "graphql.config.yaml".into(), "--output-format".into(), "json".into()];
+                                                if arg_out {
+                                                    a.push("--schema-output".into());
+                                                    a.push("./out/s.d.ts".into());
+                                                }
+                                                a.extend(cmd.iter().map(|x| x.to_string()));
+                                                let tag = format!("schemaOutput={so:?} specifier={} resolvers={resolvers} server={server} runtime={runtime} mode={mode} plugin={plugin} documents={docs} --schema-output={arg_out} commands={cmd:?}", spec.is_some());
+                                                cases.push((y, a, tag));
+                                            }
+                                        }
+                                    }
+                                }
+                            }
+                        }
+                    }
+                }
+            }
+        }
+    }
+    let outcomes: Mutex<BTreeMap<String, u64>> = Mutex::new(BTreeMap::new());
+    par_for(cases.len(), args.threads, |i| {
+        let (y, a, tag) = &cases[i];
+        let mut p = cli::Project::default();
+        p.files.insert("graphql.config.yaml".into(), y.clone());
+        p.files.insert("schema/s.graphql".into(), "type Query { me: User }\ntype User { id: ID! name: String }\n".into());
+        p.files.insert("src/q.graphql".into(), "query Q { me { id name } }\n".into());
+        let dir = cli::thread_dir("c08");
+        cli::materialize(&dir, &p);
+        let r = cli::run(&dir, a, &[], Duration::from_secs(30));
+        let stderr = cli::strip_ansi(&r.stderr);
+        let panicked = stderr.contains("panicked at");
+        *outcomes.lock().unwrap().entry(format!("exit {:?}{}", r.code, if r.timed_out { " (timeout)" } else { "" })).or_insert(0) += 1;
+        if panicked || r.timed_out || !matches!(r.code, Some(0) | Some(1)) {
+            let site = stderr.lines().find(|l| l.contains("panicked at")).unwrap_or("").split("panicked at ").nth(1).unwrap_or("").split(':').next().unwrap_or("").to_string();
+            let site = site.split("/crates/").nth(1).map(|x| format!("crates/{x}")).unwrap_or(site);
+            rep.report(Violation {
+                key: format!("cli.{}@{site}", if r.timed_out { "no_exit" } else { "panic" }),
+                what: format!("the CLI {} on a legal configuration ({tag}): {}", if r.timed_out { "did not exit".to_string() } else { format!("exits with {:?}", r.code) }, stderr.lines().find(|l| l.contains("panicked at")).unwrap_or("")),
+                case: json!({"via": "Cli", "config": y, "args": a, "stderr": stderr.chars().take(2000).collect::<String>()}),
+            });
+        }
+    });
+    cli::cleanup("c08");
+    json!({"cases": cases.len(), "exit_statuses": *outcomes.lock().unwrap()})
 }
 
 fn child_nesting() -> i32 {
